@@ -260,4 +260,41 @@ PROPS["C07"] = {
     "assumptions": ["a parser's result depends only on (info, data)"],
 }
 
+def nt_c10(lhs, impl):
+    f = lhs.split(" ")
+    if f[0] != "tree":
+        return (f[0], f[1], len(f[2]) // 16, impl[:6])
+    i = f.index("T")
+    kinds = tuple(sorted(set(x for x in f[i:] if x in ("D", "F", "LF", "LD", "DG", "FI", "SO"))))
+    r = f.index("R") if "R" in f else len(f)
+    nfiles = int(f[r + 1]) if r + 1 < len(f) else 0
+    return (f[1], f[2], kinds, min(nfiles, 12), (r - i) // 12, impl.split(" ")[0] + impl.split(" ")[1] if " " in impl else impl)
+
+PROPS["C10"] = {
+    "modules": ["WhatIs.Props.C10"],
+    "theorems": ["WhatIs.C10.scan_eq_flatten", "WhatIs.C10.readDir_sorted", "WhatIs.C10.readDir_perm",
+                 "WhatIs.C10.readDir_order_independent", "WhatIs.C10.bad_entries_survive", "WhatIs.C10.recursive_eq_concat",
+                 "WhatIs.C10.dir_without_r_refused", "WhatIs.C10.missing_path_refused", "WhatIs.C10.depth_limit_witness"],
+    "facts": {"cli.maxDepth": 1000},
+    "nontrivial": nt_c10,
+    "gen_timeout": 3000,
+    "rule": "directory trees materialised in a scratch directory and scanned by the REAL binary (10 s watchdog, stdin closed): random "
+            "trees (depth <= 5, fan-out <= 4, names with spaces/UTF-8/dots/sort-order traps, entry kinds regular, empty, directory, empty "
+            "directory, symlink to file/dir/nothing, FIFO, socket) x argument lists (dir with -r, several args, dir without -r, missing "
+            "path), fixed shapes with a bad entry first/middle/last/only/nested, and standard input vs file; every regular file is also "
+            "run alone and the recursive output must be the concatenation. distinct non-trivial = distinct (flags, #args, entry-kind set, "
+            "#files, size bucket, outcome)",
+    "design_ref": "DESIGN.md §5 C10",
+    "level_text": "Proof: for ALL trees within the depth limit the model of inspectDirectory reports exactly the regular files below the "
+                  "directory, depth first, in sorted order (= concatenation of single-file runs); ReadDir's sort makes the result independent "
+                  "of on-disk order; dangling links/FIFOs/sockets/links to directories produce no report and suppress nothing; a directory "
+                  "without -r and a nonexistent path end with status 1. The depth limit (1000) is a recorded finding with a witness theorem. "
+                  "Blocking on a FIFO is runtime behaviour: exhibited by the watchdog, not by a theorem.",
+    "level_note": "Trusted: Lean kernel; translator (maxDepth); OS semantics of ReadDir/Stat/Open as modelled (H-readdir: entries sorted by "
+                  "byte-wise name); the per-file report text is taken from single-file runs of the real binary.",
+    "technique": "Lean 4 proof (mutual structural induction over the directory tree; insertion-sort permutation/sortedness) + differential correspondence on materialised trees with the real binary",
+    "trusted_base": ["OS directory semantics as modelled", "single-file runs of the real binary as the per-file reference"],
+    "assumptions": ["explicit FIFO/socket arguments are outside the model (only entries met during -r are modelled)"],
+}
+
 NOT_CLAIMED = {}
